@@ -8,7 +8,7 @@ from .. import core
 PROP = "C09"
 
 CALLABLES = ["func", "method", "static", "classm", "pset", "afunc", "amethod"]
-FORMS = ["none", "cls", "inst", "func", "lambda", "bound", "static_via_class", "classm_via_class", "base_cls", "base_inst"]
+FORMS = ["none", "cls", "inst", "func", "lambda", "bound", "static_via_class", "classm_via_class", "base_cls", "base_inst", "falsy_inst", "falsy_cls"]
 
 PRELUDE = '''\
 import functools
@@ -22,6 +22,11 @@ R = Obj("R")
 SNAP = Obj("SNAP")
 class MyErr(Exception): pass
 class MyBase(BaseException): pass
+class FalsyErr(Exception):
+    def __bool__(self): return False
+class EmptyErr(Exception):
+    def __len__(self): return 0
+FINST = FalsyErr("the falsy instance")
 INST = MyErr("the instance")
 BINST = MyBase("the base instance")
 RET = {"v": None}
@@ -61,6 +66,10 @@ def render(case):
         err = ", error=INST"
     elif form == "base_inst":
         err = ", error=BINST"
+    elif form == "falsy_inst":
+        err = ", error=FINST"
+    elif form == "falsy_cls":
+        err = ", error=FalsyErr"
     elif form == "func":
         w.append("def EF({}):\n{}".format(params, fac_body))
         err = ", error=EF"
@@ -133,6 +142,8 @@ def cases(tier):
                         out.append({"role": role, "callable": ck, "form": form, "subset": names[:1] + ["nope"], "unknown": "nope"})
                         out.append({"role": role, "callable": ck, "form": form, "subset": names[:1], "fac_ret": "'not an exception'"})
                         out.append({"role": role, "callable": ck, "form": form, "subset": names[:1], "fac_ret": "MyBase('base from factory')"})
+                        out.append({"role": role, "callable": ck, "form": form, "subset": names[:1], "fac_ret": "FalsyErr('falsy from factory')"})
+                        out.append({"role": role, "callable": ck, "form": form, "subset": [], "fac_ret": "EmptyErr('empty from factory')"})
                 else:
                     out.append({"role": role, "callable": ck, "form": form, "subset": []})
     return out
@@ -276,12 +287,12 @@ def run_case(case, acc):
                 if type(exc) is not icontract.ViolationError or not issubclass(icontract.ViolationError, AssertionError) \
                         or not MSG_RE.match(str(exc)):
                     viol("default_error", "call {}: expected ViolationError with the generated message, got {!r}".format(i, exc))
-            elif form in ("cls", "base_cls"):
-                want = ns["MyErr"] if form == "cls" else ns["MyBase"]
+            elif form in ("cls", "base_cls", "falsy_cls"):
+                want = {"cls": ns["MyErr"], "base_cls": ns["MyBase"], "falsy_cls": ns["FalsyErr"]}[form]
                 if type(exc) is not want or len(exc.args) != 1 or not MSG_RE.match(str(exc.args[0])):
                     viol("error_class", "call {}: expected {}(generated message), got {!r}".format(i, want.__name__, exc))
-            elif form in ("inst", "base_inst"):
-                want = ns["INST"] if form == "inst" else ns["BINST"]
+            elif form in ("inst", "base_inst", "falsy_inst"):
+                want = {"inst": ns["INST"], "base_inst": ns["BINST"], "falsy_inst": ns["FINST"]}[form]
                 if exc is not want:
                     viol("error_instance_identity", "call {} (violation #{}): raised {!r} (id {}) is not the configured instance (id {})".format(
                         i, [r[0] for r in results[: i + 1]].count(False), exc, id(exc), id(want)))
